@@ -37,13 +37,16 @@ Adv(st) == [st EXCEPT !.pos = @ + 1]
 
 Flat(ss) == FlattenSeq(ss)      \* concatenation of a sequence of sequences
 
+(* mode: full = without AtomicSubseq (plain (?:...) groups); elem / stale = known-finding classifiers (see below) *)
+SpecMode == [full |-> FALSE, elem |-> FALSE, stale |-> {}, walk |-> FALSE]
+
 RECURSIVE MItem(_, _, _, _, _), MIter(_, _, _, _, _, _, _), MSeq(_, _, _, _, _, _, _)
 
 (* One iteration of quantifier q at st.  AtomicSubseq: for a sub-sequence only the first way is kept. *)
 Iteration(q, qid, w, st, mode) ==
   IF q.one THEN MItem(q.body[1], qid, w, st, mode)
   ELSE LET rs == MSeq(q.body, qid, 1, 1, w, st, mode)
-       IN IF rs = <<>> \/ mode = "full" THEN rs ELSE <<rs[1]>>      \* AtomicSubseq
+       IN IF rs = <<>> \/ mode.full THEN rs ELSE <<rs[1]>>      \* AtomicSubseq
 
 (* All ways to finish quantifier q (started at position s0) when n iterations are done and the state is st. *)
 MIter(q, qid, w, st, n, s0, mode) ==
@@ -55,25 +58,33 @@ MIter(q, qid, w, st, n, s0, mode) ==
                       ELSE MIter(q, qid, w, [its[i] EXCEPT !.ev = Append(@, <<1, qid, st.pos, its[i].pos>>)], n + 1, s0, mode)])
   IN IF q.g THEN more \o stop ELSE stop \o more
 
-(* ElemStepBack - NOT the specification, only used to *classify* a disagreement (known finding):                     *)
-(* what a greedy quantifier with a sub-sequence body yields if giving back is done one ELEMENT at a time              *)
-(* instead of one iteration at a time.                                                                                *)
+(* Known-finding classifiers - NOT the specification, only used to *name* a disagreement of pfst precisely:         *)
+(*  ElemStepBack  a greedy quantifier with a sub-sequence body gives back one ELEMENT at a time instead of one        *)
+(*                iteration at a time (position and iteration count drift apart);                                      *)
+(*  StaleStatic   a greedy anonymous quantifier carrying static tags that reached a finite max keeps the tags of the  *)
+(*                iteration it has just given back (u is one iteration ahead).                                         *)
+(* Both are deterministic walks down from the maximal run of (atomic) iterations.                                      *)
 RECURSIVE GreedyRun(_, _, _, _)
 GreedyRun(q, qid, w, chain) ==
   LET st == chain[Len(chain)]
-      its == IF Len(chain) - 1 < q.mx THEN Iteration(q, qid, w, st, "spec") ELSE <<>>
+      its == IF Len(chain) - 1 < q.mx THEN Iteration(q, qid, w, st, SpecMode) ELSE <<>>
   IN IF its = <<>> \/ its[1].pos = st.pos THEN chain
      ELSE GreedyRun(q, qid, w, Append(chain, [its[1] EXCEPT !.ev = Append(@, <<1, qid, st.pos, its[1].pos>>)]))
 
-ElemStepBack(q, qid, w, st) ==
+KnownGiveBack(q, qid, w, st, mode) ==
   LET chain == GreedyRun(q, qid, w, <<st>>)
       k == Len(chain) - 1
+      elem == mode.elem /\ ~q.one
+      stale == qid \in mode.stale /\ k = q.mx
   IN IF k < q.mn THEN <<>>
      ELSE [jj \in 1..(k - q.mn + 1) |->
              LET j == jj - 1
                  c == chain[k - j + 1]
-                 p == chain[k + 1].pos - j
-             IN [c EXCEPT !.pos = p, !.ev = Append(@, <<2, qid, st.pos, p>>)]]
+                 p == IF elem THEN chain[k + 1].pos - j ELSE c.pos
+                 uu == IF stale /\ j >= 1 THEN chain[k - j + 2].u ELSE c.u
+             IN [c EXCEPT !.pos = p, !.u = uu, !.ev = Append(@, <<2, qid, st.pos, p>>)]]
+
+Deviates(it, qid, mode) == it.g /\ (mode.walk \/ (mode.elem /\ ~it.one) \/ qid \in mode.stale)
 
 MItem(it, qid, w, st, mode) ==
   LET more == st.pos < Len(w) IN
@@ -81,7 +92,7 @@ MItem(it, qid, w, st, mode) ==
     [] it.k = "any"  -> IF more THEN <<Adv(st)>> ELSE <<>>
     [] it.k = "cap"  -> IF more THEN <<[Adv(st) EXCEPT !.u = st.pos + 1]>> ELSE <<>>
     [] it.k = "back" -> IF more /\ st.u > 0 /\ w[st.pos + 1] = w[st.u] THEN <<Adv(st)>> ELSE <<>>
-    [] it.k = "q"    -> IF mode = "elem" /\ it.g /\ ~it.one THEN ElemStepBack(it, qid, w, st)
+    [] it.k = "q"    -> IF Deviates(it, qid, mode) THEN KnownGiveBack(it, qid, w, st, mode)
                         ELSE MIter(it, qid, w, st, 0, st.pos, mode)
     [] OTHER -> <<>>
 
@@ -91,8 +102,6 @@ MSeq(items, base, mul, i, w, st, mode) ==
   ELSE LET rs == MItem(items[i], base + i * mul, w, st, mode)
        IN Flat([j \in 1..Len(rs) |-> MSeq(items, base, mul, i + 1, w, rs[j], mode)])
 
-(* mode "spec" = the specification; "full" = without AtomicSubseq (plain regular expression with (?:...) groups);   *)
-(* "elem" = with ElemStepBack (classification of a known finding only)                                               *)
 Ways(pats, w, mode) == MSeq(pats, 0, 10, 1, w, St0, mode)
 
 Reject == [acc |-> FALSE, u |-> 0, ev |-> <<>>]
@@ -101,9 +110,11 @@ First(pats, w, mode) ==
   LET full == SelectSeq(Ways(pats, w, mode), LAMBDA r : r.pos = Len(w))
   IN IF full = <<>> THEN Reject ELSE [acc |-> TRUE, u |-> full[1].u, ev |-> full[1].ev]
 
-FirstMatch(pats, w)    == First(pats, w, "spec")     \* the specification
-FirstFull(pats, w)     == First(pats, w, "full")
-FirstElemStep(pats, w) == First(pats, w, "elem")
+FirstMatch(pats, w)    == First(pats, w, SpecMode)     \* the specification
+FirstFull(pats, w)     == First(pats, w, [SpecMode EXCEPT !.full = TRUE])
+FirstKnown(pats, w, elem, stale) == First(pats, w, [SpecMode EXCEPT !.elem = elem, !.stale = stale])
+FirstWalk(pats, w) == First(pats, w, [SpecMode EXCEPT !.walk = TRUE])
+FirstElemStep(pats, w) == FirstKnown(pats, w, TRUE, {})
 
 -----------------------------------------------------------------------------
 (* Views on a result *)
